@@ -119,6 +119,8 @@ def run(tier, seed):
              # irrigation that wets only part of the surface (so that surface-cover features interact with it), dry weather
              S("Maize", "Loam", seed=seed + 7, regime="arid", irr={"method": 2, "kw": {"IrrInterval": 6, "WetSurf": 30, "AppEff": 80}}),
              S("Potato", "SandyLoam", seed=seed + 8, regime="arid", irr={"method": 1, "kw": {"SMT": [70] * 4, "WetSurf": 50}}, field={"bunds": True, "z_bund": 0.05}),
+             # calendar given in days, converted to thermal time by the model (the conversion must not depend on how the harvest date was given)
+             S("Wheat", "SandyLoam", seed=seed + 10, crop_kw={"SwitchGDD": 1}, seasons=2),
              # long fallow periods with rain (off-season simulated, start well before planting): the fallow management matters
              S("Wheat", "ClayLoam", seed=seed + 9, regime="wet", off_season=True, lead=45, seasons=2, events=L.storm_events(2001, (1, 20), (90, 60, 120)))]
     if tier == "thorough":
